@@ -23,6 +23,7 @@ ASSUMPTIONS = [
     "relative tolerance 1e-9 between float history and exact rational value",
     "indices where mu_i is exactly 0 or u (0/0 in the product) are skipped and counted; C11/C01 still constrain them",
     "eta_i / lambda_i are taken from the library's estimator/bet (their legitimacy is C05/C13's business)",
+    "the ALPHA-versus-betting comparison stops at the first draw whose betting factor is below 1e-6 in absolute value (there the conversion of the bet into an alternative is ill-conditioned in floating point)",
     "for the SPRT, either the raw or the [0,u]-clipped fixed-alternative sequence is accepted; an alternative at or below the null mean (inside the documented range (0,u), but no alternative to 'mean <= t') counts as the null mean itself",
 ]
 REQUIRE_VAC = ["entries_compared", "entries_strictly_inside", "singular_entries_skipped", "equiv_nodes"]
@@ -144,10 +145,18 @@ def equiv_judge(cfg, idx):
     mus = s1.exact_mu(cfg, xs)
     u = s1.fr(cfg["u"])
     ncmp = 0
+    try:
+        lam_f = np.asarray(helper.bet(x.copy()), dtype=float) * np.ones(len(x))
+    except Exception:  # noqa
+        lam_f = None
     for j, (a, b) in enumerate(zip(ha, hb)):
         # compared at every index, also where mu_j is 0 or u: the two forms must follow the same convention there
         if a != a or b != b:
             continue
+        if lam_f is not None and abs(1 + lam_f[j] * (float(xs[j]) - float(mus[j]))) < 1e-6:
+            # a factor this close to 0 is mostly rounding error of the bet (lambda within an ulp of 1/mu): from here on the
+            # two forms agree only as far as eta = mu(1 + lambda(u - mu)) can be represented, i.e. not to 1e-9
+            break
         ncmp += 1
         if not s1.feq(float(a), float(b), rel=REL, abs_=1e-300):
             return [(f"C12|{mk}|alpha-vs-betting", f"{mk}: betting history[{j}]={b} but equivalent ALPHA gives {a}")], ncmp
